@@ -42,6 +42,7 @@ class State:
         self.done = False
         self.depth = 0
         self.loops = []
+        self.rconds = []     # (resolved text of the test, outcome, test ast)
         self.ver = {}        # name -> assignment counter
         self.decided = {}    # test text -> (outcome, versions of its names)
 
@@ -53,6 +54,7 @@ class State:
         s.via_except = self.via_except
         s.depth = self.depth
         s.loops = list(self.loops)
+        s.rconds = list(self.rconds)
         s.ver = dict(self.ver)
         s.decided = dict(self.decided)
         return s
@@ -154,6 +156,20 @@ class SymX:
         if isinstance(st, ast.If):
             self._record_calls(st.test, s, st)
             d = self.decide(st.test, s) if self.decide else None
+            if d is None:
+                d = _const_test(st.test, lin)
+            rtext = {}
+            def _rt(t):
+                try:
+                    rtext[id(t)] = lin.text(t)
+                except Exception:
+                    rtext[id(t)] = src(t)
+                if isinstance(t, ast.BoolOp):
+                    for v in t.values:
+                        _rt(v)
+                elif isinstance(t, ast.UnaryOp) and isinstance(t.op, ast.Not):
+                    _rt(t.operand)
+            _rt(st.test)
             # the same pure test on unchanged names has the same outcome as earlier on this path
             pure = _pure_names(st.test)
             key = None
@@ -173,12 +189,14 @@ class SymX:
                 if key is not None and d is None:
                     a.decided[key] = (True, tuple(a.ver.get(n, 0) for n in pure))
                 a.conds.append((st.test, True))
-                a.events.append(Event('cond', st, src(st.test), True, depth=a.depth))
+                a.rconds.append((rtext, True, st.test))
+                a.events.append(Event('cond', st, src(st.test), True, depth=a.depth, extra=rtext.get(id(st.test))))
                 outs += self._block(st.body, [a])
             if d is None or d is False:
                 b = s
                 b.conds.append((st.test, False))
-                b.events.append(Event('cond', st, src(st.test), False, depth=b.depth))
+                b.rconds.append((rtext, False, st.test))
+                b.events.append(Event('cond', st, src(st.test), False, depth=b.depth, extra=rtext.get(id(st.test))))
                 outs += self._block(st.orelse, [b]) if st.orelse else [b]
             return outs
         if isinstance(st, (ast.For, ast.AsyncFor)):
@@ -299,6 +317,21 @@ class SymX:
         else:
             s.events.append(Event('store', st, self._target_text(t, lin), f, node=t, depth=s.depth,
                                   extra=tupforms))
+
+
+def _const_test(test, lin):
+    """outcome of a comparison whose two sides are numeric constants under the current environment"""
+    if isinstance(test, ast.Compare) and len(test.ops) == 1:
+        try:
+            a = lin.form(test.left).const_value()
+            b = lin.form(test.comparators[0]).const_value()
+        except Exception:
+            return None
+        if a is None or b is None:
+            return None
+        op = test.ops[0]
+        return {ast.Eq: a == b, ast.NotEq: a != b, ast.Lt: a < b, ast.LtE: a <= b, ast.Gt: a > b, ast.GtE: a >= b}.get(type(op))
+    return None
 
 
 def _pure_names(test):
